@@ -5,6 +5,8 @@ usage: confirm_seeds.py ID-n [ID-n ...]; results -> /tmp/seedstage/confirm.jsonl
 import json, os, subprocess, sys, shutil, re
 
 WT = "/tmp/confirm_wt"
+WTROOT = os.environ.get("WTROOT", "/tmp/wt")
+STAGE = os.environ.get("STAGE", "/tmp/seedstage")
 def R(cmd, cwd=None, timeout=900):
     try:
         r = subprocess.run(cmd, shell=True, cwd=cwd, text=True, stdout=subprocess.PIPE, stderr=subprocess.STDOUT, timeout=timeout)
@@ -19,8 +21,8 @@ else:
 
 for name in sys.argv[1:]:
     pid, n = name.split("-")
-    patch = f"/tmp/seedstage/{name}.diff"
-    demo_src = f"/tmp/wt/{pid}/tests/demo{n}.rs"
+    patch = f"{STAGE}/{name}.diff"
+    demo_src = f"{WTROOT}/{pid}/tests/demo{n}.rs"
     R(f"git -C {WT} reset -q --hard && git -C {WT} clean -fdq -e target")
     os.makedirs(WT + "/tests", exist_ok=True)
     shutil.copy(demo_src, WT + f"/tests/demo{n}.rs")
@@ -43,6 +45,6 @@ for name in sys.argv[1:]:
     rc, out = R(f"timeout 600 cargo test --offline --test demo{n} 2>&1 | tail -25", cwd=WT, timeout=700)
     rec["demo_patched_fails"] = ("FAILED" in out or "failed" in out or rc == 124 or "timeout" in out) and "test result: ok" not in out.split("running")[-1]
     rec["demo_patched_tail"] = out[-500:]
-    open("/tmp/seedstage/confirm.jsonl", "a").write(json.dumps(rec) + "\n")
+    open(f"{STAGE}/confirm.jsonl", "a").write(json.dumps(rec) + "\n")
     print(name, {k: v for k, v in rec.items() if k not in ("demo_patched_tail",)}, flush=True)
 R(f"git -C {WT} reset -q --hard && git -C {WT} clean -fdq -e target")
